@@ -724,7 +724,11 @@ def list_schema():
                     '<xs:enumeration value="%s %s %s"/></xs:restriction></xs:simpleType>' % (i, i, lex[1], lex[2], lex[2], lex[max(lex)], lex[1], lex[1]))
         defs.append('<xs:simpleType name="LN%d"><xs:restriction base="LE%d"><xs:minLength value="2"/></xs:restriction></xs:simpleType>' % (i, i))
         defs.append('<xs:simpleType name="LL%d"><xs:restriction base="L%d"><xs:length value="2"/></xs:restriction></xs:simpleType>' % (i, i))
-        for k in ('LE', 'LN', 'LL'):
+        # the enumeration on the outer level of a two-level chain (the inner level only bounds the length)
+        defs.append('<xs:simpleType name="LI%d"><xs:restriction base="L%d"><xs:maxLength value="3"/></xs:restriction></xs:simpleType>' % (i, i))
+        defs.append('<xs:simpleType name="LM%d"><xs:restriction base="LI%d"><xs:enumeration value="%s %s"/><xs:enumeration value="%s"/>'
+                    '<xs:enumeration value="%s %s %s"/></xs:restriction></xs:simpleType>' % (i, i, lex[1], lex[2], lex[2], lex[max(lex)], lex[1], lex[1]))
+        for k in ('LE', 'LN', 'LL', 'LM'):
             els.append('<xs:element name="e%s%d" type="%s%d" minOccurs="0"/>' % (k, i, k, i))
             atts.append('<xs:attribute name="a%s%d" type="%s%d"/>' % (k, i, k, i))
     return ('<xs:schema xmlns:xs="http://www.w3.org/2001/XMLSchema" xmlns:p="urn:p">%s<xs:element name="r"><xs:complexType><xs:sequence>%s'
@@ -733,7 +737,7 @@ def list_schema():
 
 def list_reference(kind, ids, top=3):
     enum = ids in ([1, 2], [2], [top, 1, 1])
-    return {'LE': enum, 'LN': enum and len(ids) >= 2, 'LL': len(ids) == 2}[kind]
+    return {'LE': enum, 'LN': enum and len(ids) >= 2, 'LL': len(ids) == 2, 'LM': enum}[kind]
 
 
 def list_expected(ty, lex, opts):
@@ -789,7 +793,7 @@ def check_lists(ctx):
     for version in ('1.0', '1.1'):
         docs = []
         for i, (ty, pl) in enumerate(LIST_POOLS.items()):
-            for kind in ('LE', 'LN', 'LL'):
+            for kind in ('LE', 'LN', 'LL', 'LM'):
                 picks = [[0], [0, 1]] + [[rng.randrange(len(pl)) for _ in range(rng.choice([1, 2, 2, 3]))] for _ in range(6 if ctx.quick() else 60)]
                 # the enumerated values in other lexical forms
                 byid = {}
@@ -815,7 +819,8 @@ def check_lists(ctx):
             ctx.count(('lists', c['version'], r['xml']), nontrivial=True)
             ctx.dist('restricted lists', '%s %s %s' % (ty, kind, 'valid' if want else 'invalid'))
             rep = {'kind': 'lists', 'xml': r['xml'], 'xsd': list_schema(), 'version': c['version'], 'impl': r}
-            what = '%s of %s (XSD %s) %s' % ({'LE': 'enumerated list', 'LN': 'enumerated list with minLength 2', 'LL': 'list with length 2'}[kind], ty, c['version'], r['xml'])
+            what = '%s of %s (XSD %s) %s' % ({'LE': 'enumerated list', 'LN': 'enumerated list with minLength 2', 'LL': 'list with length 2',
+                                      'LM': 'list with maxLength 3 restricted by an enumeration'}[kind], ty, c['version'], r['xml'])
             if 'exc' in r:
                 ctx.violation('%s: raised %s' % (what, r['exc']), rep)
                 continue
